@@ -12,6 +12,13 @@ Theorem C15_source_shape : timer_shape_ok = true.
 Proof. exact eq_refl. Qed.
 Print Assumptions C15_source_shape.
 
+(* The model identifies a timer by its handler and by nothing else (its name string does not occur in Model.v).
+   That is faithful only while sys_fn_timer.py has no place where handlers are kept between calls: no module- or
+   class-level state, no globals, no mutable default arguments (read by the translator). *)
+Theorem C15_timers_are_identified_by_handle_only : timer_has_no_name_registry = true.
+Proof. exact eq_refl. Qed.
+Print Assumptions C15_timers_are_identified_by_handle_only.
+
 (* T15.arith: the delay formula of the pinned source and the boundary index of the
    repaired one name the same instant: the first boundary strictly after `now`. *)
 Theorem C15_rearm_arith : forall start iv now, 0 < iv ->
